@@ -14,24 +14,28 @@
 EXTENDS Integers, Sequences, FiniteSets, TLC, Json
 CONSTANTS Brokers, Res, Routers, Vals,
           MaxLeases, MaxAcq, MaxExpire, MaxRelease, MaxRelAll, MaxCrash, MaxBlip,   \* bounds, lease part
-          MaxAdmin, MaxClose, MaxInval,                                             \* bounds, router part
+          MaxAdmin, MaxClose, MaxInval, MaxCompact,                                 \* bounds, router part
           FixRelease,          \* TRUE: Release deletes with a txn guarded by value = self AND lease = the session captured at
                                \*       release start, and is serialised with this broker's acquires (repaired tree);
                                \* FALSE: unconditional, unserialised delete (pinned tree)
           DevReleaseRace,      \* deviation: guarded delete but no serialisation with the broker's own acquire
           DevPutIfOwnerOther,  \* deviation: the acquire txn lost its create-if-absent guard (overwrites a foreign key)
+          DevReacqBlind,       \* deviation: reacquire() is a plain Put instead of a txn guarded by Value(key) = self
+          DevDropSameRev,      \* deviation: the router applies only one of the events that share a revision
+          DevNoReload,         \* deviation: after a closed stream the router resumes its watch without re-reading the prefix
+                               \*            (and fast-forwards to the compaction revision when etcd refuses the start revision)
           FixRev,              \* TRUE: watch starts at loadRevision+1 (repaired tree); FALSE: watch starts "now" (pinned tree)
           KeepHist             \* FALSE only in the liveness configs (no VIEW there, so the history must not grow)
 VARIABLES key, alive, nextL, sess, sdone, mon, owned, closed, apc, asess, ares, rpc, rsess, rdel, cnt,
-          rev, elog, rst, table, revL, from, inval, hist
+          rev, elog, rst, table, revL, from, inval, compacted, hist
 lrest == <<alive, nextL, sess, sdone, mon, owned, closed, apc, asess, ares, rpc, rsess>>
 lvars == <<key, lrest>>
-rvars == <<rst, table, revL, from, inval>>
+rvars == <<rst, table, revL, from, inval, compacted>>
 vars == <<lvars, rdel, cnt, rev, elog, rvars, hist>>
 
 Absent == [owner |-> "", lease |-> 0]
 NoDel == [b |-> "", owner |-> ""]
-Cnt0 == [acq |-> 0, exp |-> 0, rel |-> 0, relall |-> 0, crash |-> 0, blip |-> 0, admin |-> 0, close |-> 0, inval |-> 0]
+Cnt0 == [acq |-> 0, exp |-> 0, rel |-> 0, relall |-> 0, crash |-> 0, blip |-> 0, admin |-> 0, close |-> 0, inval |-> 0, compact |-> 0]
 
 Init == /\ key = [r \in Res |-> Absent] /\ alive = {} /\ nextL = 1
         /\ sess = [b \in Brokers |-> 0] /\ sdone = {} /\ mon = [b \in Brokers |-> {}]
@@ -42,7 +46,7 @@ Init == /\ key = [r \in Res |-> Absent] /\ alive = {} /\ nextL = 1
         /\ rdel = NoDel /\ cnt = Cnt0
         /\ rev = 0 /\ elog = <<>>
         /\ rst = [q \in Routers |-> "init"] /\ table = [q \in Routers |-> [r \in Res |-> ""]]
-        /\ revL = [q \in Routers |-> 0] /\ from = [q \in Routers |-> 0] /\ inval = [q \in Routers |-> {}]
+        /\ revL = [q \in Routers |-> 0] /\ from = [q \in Routers |-> 0] /\ inval = [q \in Routers |-> {}] /\ compacted = 0
         /\ hist = <<>>
 
 Log(e) == hist' = IF KeepHist THEN Append(hist, e) ELSE hist
@@ -96,7 +100,7 @@ AcqTxn(b, r) ==
 AcqReacq(b, r) ==
   /\ apc[b][r] = "post" /\ ares[b][r] = "self"
   /\ LET l == asess[b][r] IN
-     IF key[r].owner = b
+     IF key[r].owner = b \/ DevReacqBlind
      THEN IF l \in alive THEN /\ EtcdWrite([key EXCEPT ![r] = [owner |-> b, lease |-> l]], {r}) /\ ares' = [ares EXCEPT ![b][r] = "ok"]
                          ELSE /\ NoEtcd /\ ares' = [ares EXCEPT ![b][r] = "err"]
      ELSE /\ NoEtcd /\ ares' = [ares EXCEPT ![b][r] = "other"]
@@ -208,48 +212,72 @@ AdminDel(k) ==
   /\ Count("admin") /\ Log([a |-> "AdminDel", k |-> k])
   /\ rdel' = NoDel /\ UNCHANGED <<lrest, rvars>>
 
+\* one transaction deleting every present lease key: ONE revision carrying several events (what a lease revoke / ReleaseAll of
+\* a broker that holds several leases does)
+AdminDelAll ==
+  /\ cnt.admin < MaxAdmin /\ Cardinality({k \in Res : key[k] # Absent}) >= 2
+  /\ EtcdWrite([k \in Res |-> Absent], {k \in Res : key[k] # Absent})
+  /\ Count("admin") /\ Log([a |-> "AdminDelAll"])
+  /\ rdel' = NoDel /\ UNCHANGED <<lrest, rvars>>
+\* etcd compacts its history at the current revision: a watch may no longer start below it
+Compact ==
+  /\ Routers # {} /\ cnt.compact < MaxCompact /\ compacted < rev
+  /\ compacted' = rev
+  /\ Count("compact") /\ Log([a |-> "Compact"])
+  /\ rdel' = NoDel /\ NoEtcd /\ UNCHANGED <<lvars, rst, table, revL, from, inval>>
+
 Owners == [r \in Res |-> key[r].owner]
-\* loadAll: Get(prefix) at the current revision replaces the table (router construction, or after a closed stream)
+\* loadAll: Get(prefix) at the current revision replaces the table (router construction, or after a closed stream).
+\* revL is the router's `rev` variable: the revision its table is known to reflect.
 Load(q) ==
   /\ rst[q] \in {"init", "closed"}
-  /\ table' = [table EXCEPT ![q] = Owners] /\ revL' = [revL EXCEPT ![q] = rev] /\ inval' = [inval EXCEPT ![q] = {}]
+  /\ IF DevNoReload /\ rst[q] = "closed"
+     THEN UNCHANGED <<table, revL, inval>>
+     ELSE table' = [table EXCEPT ![q] = Owners] /\ revL' = [revL EXCEPT ![q] = rev] /\ inval' = [inval EXCEPT ![q] = {}]
   /\ rst' = [rst EXCEPT ![q] = "loaded"]
   /\ Log([a |-> "Load", q |-> q])
-  /\ rdel' = NoDel /\ NoEtcd /\ UNCHANGED <<lvars, cnt, from>>
-\* client.Watch(prefix [, WithRev(loadRevision+1)])
+  /\ rdel' = NoDel /\ NoEtcd /\ UNCHANGED <<lvars, cnt, from, compacted>>
+\* client.Watch(prefix [, WithRev(rev+1)]).  A start revision below the compaction revision is refused: the client delivers
+\* one response carrying ErrCompacted and closes the channel.
 WatchStart(q) ==
   /\ rst[q] = "loaded"
-  /\ from' = [from EXCEPT ![q] = IF FixRev THEN revL[q] + 1 ELSE rev + 1]
-  /\ rst' = [rst EXCEPT ![q] = "watching"]
+  /\ LET start == IF FixRev THEN revL[q] + 1 ELSE rev + 1 IN
+     IF start < compacted
+     THEN /\ rst' = [rst EXCEPT ![q] = "closed"] /\ UNCHANGED from
+          /\ revL' = IF DevNoReload THEN [revL EXCEPT ![q] = compacted - 1] ELSE revL
+     ELSE /\ rst' = [rst EXCEPT ![q] = "watching"] /\ from' = [from EXCEPT ![q] = start] /\ UNCHANGED revL
   /\ Log([a |-> "WatchStart", q |-> q])
-  /\ rdel' = NoDel /\ NoEtcd /\ UNCHANGED <<lvars, cnt, table, revL, inval>>
-\* one watch response (all events of revision from[q]) applied under r.mu
+  /\ rdel' = NoDel /\ NoEtcd /\ UNCHANGED <<lvars, cnt, table, inval, compacted>>
+\* one watch response (all events of revision from[q]) applied under r.mu; the router's rev follows
 Deliver(q) ==
   /\ rst[q] = "watching" /\ from[q] <= rev
-  /\ LET evs == elog[from[q]] IN
+  /\ LET all == elog[from[q]]
+         evs == IF DevDropSameRev THEN {CHOOSE e \in all : TRUE} ELSE all IN
      /\ table' = [table EXCEPT ![q] = [r \in Res |-> IF \E e \in evs : e.k = r THEN (CHOOSE e \in evs : e.k = r).v ELSE @[r]]]
      /\ inval' = [inval EXCEPT ![q] = @ \ {e.k : e \in evs}]
+  /\ revL' = [revL EXCEPT ![q] = from[q]]
   /\ from' = [from EXCEPT ![q] = @ + 1]
   /\ Log([a |-> "Deliver", q |-> q])
-  /\ rdel' = NoDel /\ NoEtcd /\ UNCHANGED <<lvars, cnt, rst, revL>>
-\* the watch channel is closed (compaction past the watcher, cancelled stream); the router will sleep and reload
+  /\ rdel' = NoDel /\ NoEtcd /\ UNCHANGED <<lvars, cnt, rst, compacted>>
+\* the watch channel is closed (cancelled stream); the router will sleep and reload
 WatchClose(q) ==
   /\ rst[q] = "watching" /\ cnt.close < MaxClose
   /\ rst' = [rst EXCEPT ![q] = "closed"]
   /\ Count("close") /\ Log([a |-> "WatchClose", q |-> q])
-  /\ rdel' = NoDel /\ NoEtcd /\ UNCHANGED <<lvars, table, revL, from, inval>>
+  /\ rdel' = NoDel /\ NoEtcd /\ UNCHANGED <<lvars, table, revL, from, inval, compacted>>
 \* Invalidate(key): the proxy drops a route it found stale
 Invalidate(q, k) ==
   /\ rst[q] # "init" /\ cnt.inval < MaxInval
   /\ table' = [table EXCEPT ![q][k] = ""] /\ inval' = [inval EXCEPT ![q] = @ \cup {k}]
   /\ Count("inval") /\ Log([a |-> "Invalidate", q |-> q, k |-> k])
-  /\ rdel' = NoDel /\ NoEtcd /\ UNCHANGED <<lvars, rst, revL, from>>
+  /\ rdel' = NoDel /\ NoEtcd /\ UNCHANGED <<lvars, rst, revL, from, compacted>>
 
 LeaseNext == \/ \E b \in Brokers, r \in Res : AcqSession(b, r) \/ AcqTxn(b, r) \/ AcqReacq(b, r) \/ AcqCommit(b, r) \/ AcqFail(b, r)
                                               \/ RelLocal(b, r) \/ RelDelete(b, r)
              \/ \E l \in 1..MaxLeases : ServerExpire(l)
              \/ \E b \in Brokers : SessDone(b) \/ ReleaseAll(b) \/ Crash(b) \/ \E l \in 1..MaxLeases : Monitor(b, l)
 RouterNext == \/ \E k \in Res : AdminDel(k) \/ \E v \in Vals : AdminPut(k, v)
+              \/ AdminDelAll \/ Compact
               \/ \E q \in Routers : Load(q) \/ WatchStart(q) \/ Deliver(q) \/ WatchClose(q) \/ \E k \in Res : Invalidate(q, k)
 Next == LeaseNext \/ RouterNext
 Spec == Init /\ [][Next]_vars
